@@ -1,4 +1,5 @@
-"""C05 - cross-target machine code preserves IR behaviour: x86_64 executed natively, riscv and riscv:rvc on the reference RV32IMC emulator."""
+"""C05 - cross-target machine code preserves IR behaviour: x86_64 executed natively, riscv and riscv:rvc on the reference RV32IMC emulator,
+arm and arm:thumb on the reference ARM/Thumb emulator (vf/sem/arm32.py)."""
 import io
 import os
 import sys
@@ -16,8 +17,9 @@ RULE = ("every IR function of the families L1 (all 1-instruction value programs 
         "<= 2 (thorough: 3) memory operations over aliasing stack slots, a global and an external call), L3 (every CFG skeleton with <= 3 (thorough: 4) "
         "blocks x 4 body/condition rotations), L4 (phi patterns, tail recursion), L5 (optimiser shortcuts) and the C corpus + statement templates through "
         "c_to_ir(src, arch), restricted to the value types the target executes; x optimisation level {0,1,2,s} (ppci.api.optimize; a level whose IR text "
-        "equals that of a lower level shares its evaluation); x target {x86_64, riscv, riscv:rvc}; compiled by ir_to_object, linked by ppci.api.link at a "
-        "fixed address, called through the target's calling convention with the full V7 x V7 argument product (<= 49 vectors); the run must give the "
+        "equals that of a lower level shares its evaluation); x target {x86_64, riscv, riscv:rvc, arm, arm:thumb} (quick: the arm and arm:thumb families "
+        "L1c/L2/L3 are rotated by VERIF_SEED over the two ARM targets, every other family runs on both); compiled by ir_to_object, linked by ppci.api.link "
+        "(arm: with the target's runtime object, use_runtime=True) at a fixed address, called through the target's calling convention with the full V7 x V7 argument product (<= 49 vectors); the run must give the "
         "reference interpreter's return value, final bytes of every global and external-call trace; distinct non-trivial = distinct "
         "(target, instruction-feature set of the function, returned value, global memory)")
 ASSUMPTIONS = [
@@ -26,7 +28,17 @@ ASSUMPTIONS = [
     "executors: x86_64 natively through vf/sem/x86exec.py (mmap RWX + ctypes, forked child per batch); riscv and riscv:rvc on vf/sem/rv32.py, whose decoder "
     "agrees with llvm-mc on all 49152 16-bit encodings and a 34368-word lattice and whose execution agrees with gcc on 3513 runs of clang-compiled "
     "functions (tests/test_rv32.py); an emulator IllegalInstruction makes the item unclassified, never a violation",
-    "targets arm, arm:thumb, m68k, mips (and every other ppci target) cannot be executed in this sandbox (no emulator) and are NOT claimed",
+    "arm (A32) and arm:thumb (T16 + the few T32 encodings ppci emits: bl, b.w, b<c>.w, sdiv, udiv) run on vf/sem/arm32.py, written from the ARM Architecture "
+    "Reference Manual; its decoder agrees with llvm-mc-14 on a 114014-word A32 lattice, all 59391 16-bit Thumb encodings and a 226542-word T32 lattice, and its "
+    "execution agrees with gcc on 8784 runs of clang-compiled functions for armv7-a/armv7-m/armv6-m at -O0/-O1/-Os (tests/test_arm32.py); an emulator "
+    "IllegalInstruction makes the item unclassified, never a violation.  Unaligned ldr/str/ldrh/strh are allowed (ARMv7, SCTLR.A = 0); ldm/stm/push/pop must "
+    "be word aligned; sdiv/udiv by zero give 0 (no trap)",
+    "arm and arm:thumb are exercised on i8..u32 and pointers only (ppci's arm register classes hold no 64-bit or float values: f32/f64/i64 operations have no "
+    "instruction patterns); ppci's arm calling convention is NOT the AAPCS: arguments in r1..r4, result in r0, r4 is caller-saved; r5-r11 and sp must be "
+    "preserved (determine_arg_locations / callee_save in ppci/arch/arm/arch.py); functions with more than four parameters are not called",
+    "arm: the object is linked with arch.runtime (ppci's own __sdiv) as ppci's build tools do; a runtime symbol the code generator references but the runtime "
+    "does not define (e.g. __udiv) makes the link fail: counted and listed under link_failures, not judged here (C11/C29)",
+    "targets m68k, mips (and every other ppci target) cannot be executed in this sandbox (no emulator) and are NOT claimed",
     "riscv is exercised on the integer types i8..u32 and pointers only: float operations compile to calls of a soft-float library (float32_add ...) that "
     "ppci does not ship, and 64-bit integers are not in the target's type table; riscv:rvf / rvfx are not executed",
     "calling convention is ppci's own for the target: x86_64 System V; riscv arguments in x12..x17, result in x10 (ppci does not use a0/a1 for arguments); "
@@ -38,19 +50,22 @@ ASSUMPTIONS = [
     "failures of ppci.api.optimize (C02/C03), of ir_to_object (C29) and of link (C11-C13) are counted and listed, not judged here",
     "every reported mismatch is re-derived from its witness in a fresh python process before it is reported; candidates that do not reproduce are counted",
 ]
-CLAIM = {"text": "inside the enumerated bound, x86_64, riscv and riscv:rvc machine code generated by ppci returns the value, leaves the global memory and makes "
+CLAIM = {"text": "inside the enumerated bound, x86_64, riscv, riscv:rvc, arm and arm:thumb machine code generated by ppci returns the value, leaves the global memory and makes "
                  "the external calls that the IR prescribes, at every optimisation level, apart from listed known findings",
-         "note": "trusted: reference IR interpreter (validated against gcc by C01), RV32IMC emulator (validated against llvm-mc and clang/gcc), host CPU",
+         "note": "trusted: reference IR interpreter (validated against gcc by C01), RV32IMC emulator and ARM/Thumb emulator (both validated against llvm-mc and clang/gcc), host CPU",
          "technique": "bounded exhaustive differential execution against a reference interpreter", "engine": "K1"}
 
-TARGETS = ["x86_64", "riscv", "riscv:rvc"]
+TARGETS = ["x86_64", "riscv", "riscv:rvc", "arm", "arm:thumb"]
+ARM_TARGETS = ("arm", "arm:thumb")
 INT32 = ["i8", "u8", "i16", "u16", "i32", "u32"]
-TYPES = {"x86_64": INT32 + ["i64", "u64", "f32", "f64"], "riscv": INT32, "riscv:rvc": INT32}
-PTR = {"x86_64": 8, "riscv": 4, "riscv:rvc": 4}
+TYPES = {"x86_64": INT32 + ["i64", "u64", "f32", "f64"], "riscv": INT32, "riscv:rvc": INT32, "arm": INT32, "arm:thumb": INT32}
+PTR = {"x86_64": 8, "riscv": 4, "riscv:rvc": 4, "arm": 4, "arm:thumb": 4}
 LEVELS = ["0", "1", "2", "s"]
 RV_CODE, RV_DATA, RV_EXT, RV_MEM = 0x10000, 0x20000, 0x1F000, 1 << 18
 RV_ARGREGS = (12, 13, 14, 15, 16, 17)
 RV_SAVED = (2, 8, 9, 18, 19, 20, 21, 22, 23, 24, 25, 26, 27)
+ARM_ARGREGS = (1, 2, 3, 4)                      # ppci's own convention: arguments r1..r4, result r0
+ARM_SAVED = (5, 6, 7, 8, 9, 10, 11, 13)
 MAXVEC = 49
 
 
@@ -125,7 +140,10 @@ def c_cases():
     return out
 
 
-def all_cases(tier, target):
+ROTATED = ("L1c", "L1k", "L2", "L3")        # quick tier: on the two ARM targets these families are split in complementary halves, swapped by VERIF_SEED
+
+
+def all_cases(tier, target, seed=0):
     """simplest first"""
     from vf.gen import irgen
     tys = TYPES[target]
@@ -162,6 +180,15 @@ def all_cases(tier, target):
         add("L3", irgen.l3_programs(4, 4))
         for ty in ("u8", "i16"):
             add("L3", irgen.l3_programs(2, 4, ty))
+    if tier == "quick" and target in ARM_TARGETS:
+        # a deterministic slice: case k of a rotated family runs on arm when k + seed is even and on arm:thumb when it is odd, so every case of the
+        # bound is executed on one ARM back end for every seed and on both over two consecutive seeds; the other families run on both
+        kept, idx = [], {}
+        for c in out:
+            k = idx[c["fam"]] = idx.get(c["fam"], -1) + 1
+            if c["fam"] not in ROTATED or (k + seed + ARM_TARGETS.index(target)) % 2 == 0:
+                kept.append(c)
+        out = kept
     return out
 
 
@@ -324,7 +351,7 @@ def prepare(p, case, target, level, m, page=None):
         p.count("skip_type_not_executed_on_target")
         return None
     params = [tyname(a.ty, target) for a in f.arguments]
-    if any(t.startswith("ptr") or t == "blob" for t in params) or (target != "x86_64" and len(params) > len(RV_ARGREGS)) or len(params) > 6:
+    if any(t.startswith("ptr") or t == "blob" for t in params) or (target.startswith("riscv") and len(params) > len(RV_ARGREGS)) or (target in ARM_TARGETS and len(params) > len(ARM_ARGREGS)) or len(params) > 6:
         p.count("skip_signature")
         return None
     ret = tyname(f.return_ty, target) if isinstance(f, ir.Function) else None
@@ -372,6 +399,9 @@ def prepare(p, case, target, level, m, page=None):
             if target == "x86_64":
                 from vf.sem import x86exec
                 j.linked, j.slots = x86exec.link_at(obj, page, sorted(j.externals))
+            elif target in ARM_TARGETS:
+                j.slots = {n: RV_EXT + 16 * k for k, n in enumerate(sorted(j.externals))}
+                j.linked = link([obj], layout=rv_layout(), extra_symbols=dict(j.slots), use_runtime=True)
             else:
                 j.slots = {n: RV_EXT + 16 * k for k, n in enumerate(sorted(j.externals))}
                 j.linked = link([obj], layout=rv_layout(), extra_symbols=dict(j.slots))
@@ -469,6 +499,40 @@ def exec_rv(j, vec):
     return ("ok", result_obs(j.ret, res.a0), mem, tuple(trace), tuple(clobbered))
 
 
+def exec_arm(j, vec):
+    """one vector on the ARM/Thumb reference emulator, ppci's convention (arguments r1..r4, result r0)"""
+    from vf.sem import arm32
+    thumb = j.target == "arm:thumb"
+    code = j.linked.get_section("code")
+    images = [(s.address, bytes(s.data)) for s in j.linked.sections if s.size and s.name != "code"]
+    trace = []
+    hooks = {}
+    for name, (ret, params) in j.externals.items():
+        def hook(mach, _n=name, _r=ret, _p=params):
+            r = host_external(_n, _r, _p, [mach.r[ARM_ARGREGS[k]] for k in range(len(_p))], trace)
+            if r is not None:
+                mach.r[0] = r & 0xFFFFFFFF
+        hooks[j.slots[name]] = hook
+    init = {r: 0xA5A50000 + r * 0x101 for r in range(0, 13)}
+    try:
+        res = arm32.run(bytes(code.data), code.address, sym_addr(j.linked, j.fname), [wrap(t, a) for t, a in zip(j.params, vec)], max_steps=400000,
+                        mem_size=RV_MEM, arg_regs=ARM_ARGREGS, extra_images=images, hooks=hooks, init_regs=init, thumb=thumb)
+    except arm32.IllegalInstruction as e:
+        return ("illegal", "%#x" % e.word, e.why)
+    except arm32.StepLimit as e:
+        return ("hang", str(e))
+    except arm32.EmuError as e:
+        return ("crash", "%s: %s" % (type(e).__name__, e))
+    m = res.machine
+    mem = tuple((n, bytes(m.mem[sym_addr(j.linked, n) - m.base:sym_addr(j.linked, n) - m.base + size]).hex()) for n, size in j.globals)
+    clobbered = [arm32.REG[r] for r in ARM_SAVED if res.regs[r] != (init[r] if r != 13 else m.base + len(m.mem) - 16)]
+    return ("ok", result_obs(j.ret, res.r0), mem, tuple(trace), tuple(clobbered))
+
+
+def exec_emulated(j, vec):
+    return exec_arm(j, vec) if j.target in ARM_TARGETS else exec_rv(j, vec)
+
+
 # ------------------------------------------------------------------------------------------------ judge
 
 def case_id(case):
@@ -503,7 +567,8 @@ def mechanisms(m, target):
                     for x in b.instructions:
                         if phi in x.uses and not x.is_terminator and isinstance(x, ir.Value) and any(u.block is not b for u in x.used_by):
                             add("value-derived-from-a-loop-phi-computed-after-the-phi-register-update")
-    if not target.startswith("riscv"):
+    isrv, isarm = target.startswith("riscv"), target in ARM_TARGETS
+    if not (isrv or isarm):
         if any(type(i) is ir.Cast and not i.src.ty.is_integer and i.src.ty is not ir.ptr and i.ty.is_integer for f in m.functions for b in f.blocks for i in b.instructions):
             add("?float-to-int-cast")       # only a marker: named in mechanism() when the observed result is off by one
         return found
@@ -512,29 +577,37 @@ def mechanisms(m, target):
         return t.bits if t.is_integer else 32
 
     def computed(v):
-        return isinstance(v, (ir.Binop, ir.Unop))
+        """a value whose register image may carry bits above its type's width: narrow arithmetic, and on arm also a narrowing cast
+        (I32TOI8 & co are no-ops on arm:thumb and zero-extend even signed values on arm)"""
+        if isinstance(v, (ir.Binop, ir.Unop)):
+            return True
+        return isarm and type(v) is ir.Cast and v.ty.is_integer and nbits(v.ty) < nbits(v.src.ty)
 
     for f in m.functions:
         for b in f.blocks:
             for i in b.instructions:
                 t = type(i)
-                if t is ir.Unop and i.a.use_count > 1:
+                if isarm and target == "arm" and t is ir.Binop and i.ty.is_integer and i.ty.bits == 32 and i.ty.is_signed and i.operation in ("/", "%"):
+                    add("arm-runtime-__sdiv-is-an-unsigned-division")
+                if isarm and target == "arm:thumb" and t is ir.Load and i.ty.is_integer and i.ty.is_signed and i.ty.bits < 32:
+                    found.append("~thumb-signed-narrow-load-zero-extends") if "~thumb-signed-narrow-load-zero-extends" not in found else None
+                if t is ir.Unop and i.a.use_count > 1 and isrv:
                     add("source-register-modified-in-place/unary" + i.operation)
                 elif t is ir.Cast and i.src.ty.is_integer and i.ty.is_integer:
                     sb, db = nbits(i.src.ty), nbits(i.ty)
-                    if sb < db and i.src.ty.is_signed and not i.ty.is_signed:
+                    if isrv and sb < db and i.src.ty.is_signed and not i.ty.is_signed:
                         add("widening-cast-of-signed-source-to-unsigned-zero-extends")
-                    if sb < db and i.src.use_count > 1:
+                    if isrv and sb < db and i.src.use_count > 1:
                         add("source-register-modified-in-place/widening-cast")
                     if sb < db and computed(i.src) and sb < 32:
                         add("narrow-intermediate-used-without-reduction-to-its-width")
-                    if sb > db and db < 32 and i.use_count and any(type(u) is ir.Cast and nbits(u.ty) > db for u in i.used_by) and i.src.use_count > 1:
+                    if isrv and sb > db and db < 32 and i.use_count and any(type(u) is ir.Cast and nbits(u.ty) > db for u in i.used_by) and i.src.use_count > 1:
                         add("source-register-modified-in-place/widening-cast")
                 elif t is ir.Binop and i.ty.is_integer:
                     bits = i.ty.bits
                     ca = i.a.value if isinstance(i.a, ir.Const) else None
                     cb = i.b.value if isinstance(i.b, ir.Const) else None
-                    if bits == 32 and i.operation in ("+", "&", "|", "^") and any(isinstance(c, int) and c < -2048 for c in (ca, cb)):
+                    if isrv and bits == 32 and i.operation in ("+", "&", "|", "^") and any(isinstance(c, int) and c < -2048 for c in (ca, cb)):
                         add("immediate-pattern-without-lower-bound")
                     if target == "riscv:rvc" and bits == 32 and i.ty.is_signed and i.operation in ("<<", ">>"):
                         if isinstance(ca, int) and ca < 16:
@@ -543,17 +616,56 @@ def mechanisms(m, target):
                             add("rvc-signed-shift-right-by-constant-is-logical")
                     if bits < 32 and i.operation in (">>", "/", "%") and (computed(i.a) or computed(i.b)):
                         add("narrow-intermediate-used-without-reduction-to-its-width")
-                    if bits < 32 and i.ty.is_signed and i.operation == ">>" and i.a.use_count > 1:
+                    if isrv and bits < 32 and i.ty.is_signed and i.operation == ">>" and i.a.use_count > 1:
                         add("source-register-modified-in-place/narrow-shift-right")
                 elif t is ir.CJump and i.a.ty.is_integer and i.a.ty.bits < 32 and (computed(i.a) or computed(i.b)):
                     add("narrow-intermediate-used-without-reduction-to-its-width")
                 elif t is ir.Const and target == "riscv:rvc" and i.ty.is_integer and isinstance(i.value, int) and i.value < -0x20000:
                     add("rvc-constant-pattern-for-large-negative-values")
+    if "~thumb-signed-narrow-load-zero-extends" in found:          # lowest priority: named only when no other trigger is present
+        found.remove("~thumb-signed-narrow-load-zero-extends")
+        found.append("thumb-signed-narrow-load-zero-extends")
     return found
 
 
+def thumb_flags_clobbered_before_branch(j):
+    """arm:thumb only, looked at after the oracle has established a failure: does the generated code contain a compare whose flags are overwritten by a
+    flag-setting instruction (16-bit movs/adds/subs/... as emitted for frame-relative spill addresses) before the conditional branch that consumes them?
+    Linear sweep with the reference decoder; literal-pool words that do not decode are skipped."""
+    from vf.sem import arm32
+    code = bytes(j.linked.get_section("code").data)
+    pending = dirty = False
+    o = 0
+    while o + 2 <= len(code):
+        h1 = int.from_bytes(code[o:o + 2], "little")
+        h2 = int.from_bytes(code[o + 2:o + 4], "little") if o + 4 <= len(code) else 0
+        try:
+            i = arm32.decode_thumb(h1, h2)
+        except arm32.IllegalInstruction:
+            pending = dirty = False
+            o += 2
+            continue
+        o += i.size
+        if i.k == "dp" and i.rd is None:
+            pending, dirty = True, False
+        elif i.k == "b" and i.cond != arm32.AL:
+            if pending and dirty:
+                return True
+        elif i.k in ("b", "bx", "ldm", "cbz"):
+            pending = dirty = False
+        elif pending and (i.s or i.sit):
+            dirty = True
+    return False
+
+
 def mechanism(j, kind, got, want):
+    if j.target == "arm:thumb" and kind in ("wrong", "hang", "result", "memory", "trace") and thumb_flags_clobbered_before_branch(j):
+        return "thumb-flags-clobbered-between-compare-and-conditional-branch"
     if kind in ("crash", "hang"):
+        if kind == "hang" and j.target in ARM_TARGETS:              # e.g. a negative divisor makes the arm runtime's shift-subtract loop spin for ever;
+            for m in j.mechs:                                       # an unreduced narrow loop counter never equals its bound
+                if not m.startswith("?"):
+                    return m
         return None
     for m in j.mechs:
         if not m.startswith("?"):
@@ -651,7 +763,7 @@ def process(p, items, target):
                 for vec, want in zip(j.vecs, j.want):
                     try:
                         with cpu_limit(30):
-                            got = exec_rv(j, vec)
+                            got = exec_emulated(j, vec)
                     except CpuTimeout:
                         got = ("hang", "emulator cpu limit")
                     judge(p, j, vec, want, got)
@@ -743,10 +855,13 @@ def minimal_keys(cands):
     for (target, kind, feats), (what, wit, explained) in sorted(kept_all.items(), key=lambda kv: (TARGETS.index(kv[0][0]), kv[0])):
         if (target, kind, feats) in done:
             continue
-        hit = [t for t in TARGETS if (t, kind, feats) in kept_all]
+        # the targets form two groups whose keys never merge: the three targets executed since the first version of this check (their keys, including
+        # 'all-targets', stay what they were) and the two ARM back ends (keys 'arm', 'arm:thumb' or 'arm+arm:thumb')
+        group = [t for t in TARGETS if (t in ARM_TARGETS) == (target in ARM_TARGETS)]
+        hit = [t for t in group if (t, kind, feats) in kept_all]
         for t in hit:
             done.add((t, kind, feats))
-        where = "all-targets" if len(hit) == len(TARGETS) else "+".join(hit)
+        where = "all-targets" if len(hit) == len(group) and target not in ARM_TARGETS else "+".join(hit)
         n = sum(kept_all[(t, kind, feats)][2] for t in hit)
         if feats.startswith("mech:"):
             out.append(("%s/%s/%s" % (where, kind, feats[5:]), what + "  [named mechanism, seen on %s: every failing function showing its structural trigger is filed here]" % ", ".join(hit), wit))
@@ -758,11 +873,11 @@ def minimal_keys(cands):
 def run(ctx):
     items = []
     for target in TARGETS:
-        cs = all_cases(ctx.tier, target)
+        cs = all_cases(ctx.tier, target, ctx.seed)
         ctx.note("cases/" + target, len(cs))
         items += [(target, c) for c in cs]
     ctx.note("targets_executed", TARGETS)
-    ctx.note("targets_not_claimed", ["arm", "arm:thumb", "m68k", "mips", "riscv:rvf", "riscv:rvfx", "msp430", "avr", "xtensa", "or1k", "microblaze", "stm8", "mcs6500"])
+    ctx.note("targets_not_claimed", ["m68k", "mips", "riscv:rvf", "riscv:rvfx", "msp430", "avr", "xtensa", "or1k", "microblaze", "stm8", "mcs6500"])
     ctx.sample({"target": "riscv", "level": "0", "case": "L1 f(a,b)=a/b on i32", "vector": [-2147483648, 2], "reference": -1073741824})
     ctx.sample({"target": "x86_64", "level": "1", "case": "corpus/float_mix", "vector": [3, 1]})
     # keep families together per shard (x86 jobs are batched per forked child), interleave for balance
@@ -772,7 +887,7 @@ def run(ctx):
     ctx.note("candidate_function_variants_failing", len(cands))
     todo = minimal_keys(cands)
     ctx.pmap(_confirm_worker, todo, nshards=min(len(todo), 64) or None)
-    ctx.note("emulator_unclassified_limit", "the claim stands only if n_unclassified_emulator_illegal_instruction is 0 or every listed encoding is a genuine non-RV32IMC encoding")
+    ctx.note("emulator_unclassified_limit", "the claim stands only if n_unclassified_emulator_illegal_instruction is 0 or every listed encoding is a genuine non-RV32IMC (riscv) / unsupported-by-design (arm) encoding")
 
 
 def replay(w):
@@ -798,7 +913,7 @@ def replay(w):
         run_x86_jobs(p, [j], page)
         page.close()
     else:
-        judge(p, j, j.vecs[0], j.want[0], exec_rv(j, j.vecs[0]))
+        judge(p, j, j.vecs[0], j.want[0], exec_emulated(j, j.vecs[0]))
     if p.violations:
         k = sorted(p.violations)[0]
         return True, p.violations[k][1]
